@@ -504,7 +504,7 @@ class PLSSParser:
         new_tracts = []
         for tract_data in self.tract_components:
             desc = tract_data['desc']
-            if self.clean_up:
+            if self.clean_up and not tract_data.get('copy_all', False):
                 desc = cleanup_desc(desc)
             for sec in tract_data['sec']:
                 trs = f"{tract_data['twprge']}{sec}"
@@ -939,6 +939,8 @@ class ChunkParser:
         sec = [sec[0]]
         twprge = self.get_next_twprge()
         self._stage_new_tract(txt, sec, twprge)
+        # The complete text is the description; it must not be cleaned up.
+        self.tract_components[-1]['copy_all'] = True
 
     def _parse_meaningful(self, txt, layout):
         """
